@@ -3,6 +3,8 @@ import glob
 import os
 import re
 
+REPO = os.environ.get("VERIF_REPO", "/repo")
+
 
 def _sections(path):
     """Parses a cairo-lang test file (`//! > name` sections, tests separated by ====)."""
@@ -30,18 +32,18 @@ def sierra_corpus(out_dir, max_files=None):
         os.unlink(f)
     n = 0
     files = []
-    for pat in ("/repo/crates/cairo-lang-sierra/examples/*.sierra", "/repo/tests/test_data/*.sierra",
-                "/repo/examples/*.sierra", "/repo/crates/cairo-lang-starknet/test_data/*.sierra"):
+    for pat in (REPO + "/crates/cairo-lang-sierra/examples/*.sierra", REPO + "/tests/test_data/*.sierra",
+                REPO + "/examples/*.sierra", REPO + "/crates/cairo-lang-starknet/test_data/*.sierra"):
         files += sorted(glob.glob(pat))
     for f in files:
         base = re.sub(r"[^A-Za-z0-9_]", "_", os.path.splitext(os.path.basename(f))[0])
         dst = os.path.join(out_dir, "f_%s.sierra" % base)
         open(dst, "w").write(open(f).read())
         n += 1
-    for f in sorted(glob.glob("/repo/tests/e2e_test_data/**/*", recursive=True)):
+    for f in sorted(glob.glob(REPO + "/tests/e2e_test_data/**/*", recursive=True)):
         if not os.path.isfile(f):
             continue
-        rel = re.sub(r"[^A-Za-z0-9_]", "_", os.path.relpath(f, "/repo/tests/e2e_test_data"))
+        rel = re.sub(r"[^A-Za-z0-9_]", "_", os.path.relpath(f, REPO + "/tests/e2e_test_data"))
         for k, t in enumerate(_sections(f)):
             code = t.get("sierra_code", "").strip()
             if code:
@@ -50,7 +52,7 @@ def sierra_corpus(out_dir, max_files=None):
     return n
 
 
-def cairo_sources(dirs=("/repo/corelib", "/repo/examples", "/repo/tests")):
+def cairo_sources(dirs=(REPO + "/corelib", REPO + "/examples", REPO + "/tests")):
     res = []
     for d in dirs:
         res += sorted(glob.glob(os.path.join(d, "**/*.cairo"), recursive=True))
@@ -60,7 +62,7 @@ def cairo_sources(dirs=("/repo/corelib", "/repo/examples", "/repo/tests")):
 def test_data_cairo_snippets():
     """`cairo_code` / `cairo` sections of test-data files under /repo/crates/**/test_data."""
     out = []
-    for f in sorted(glob.glob("/repo/crates/**/test_data/**/*", recursive=True)):
+    for f in sorted(glob.glob(REPO + "/crates/**/test_data/**/*", recursive=True)):
         if os.path.isfile(f) and not f.endswith((".json", ".sierra", ".casm", ".cairo")):
             try:
                 for t in _sections(f):
